@@ -208,7 +208,8 @@ class C07(Prop):
                  "enc_after k (fst (fst (enc_collect_from (enc_limit p) (enc_new p) []))) = repeat ENone k)"),
                 ("C07_size", "forall p : list N, length (frame p) = (length (esc p) + pad_of (length (esc p)) + 16)%nat /\\ "
                  "(Nat.modulo (length (frame p)) 4 = 0)%nat /\\ (length p + 16 <= length (frame p) <= 2 * length p + 19)%nat"),
-                ("C07_buffer_suffices", "forall (p : list N) (n : nat), (2 * length p + 19 <= n)%nat -> encode_buf (Some n) p = Some (frame p)")]
+                ("C07_buffer_suffices", "forall (p : list N) (n : nat), (2 * length p + 19 <= n)%nat -> encode_buf (Some n) p = Some (frame p)"),
+                ("C07_bytes", "forall p : list N, bytes_ok p -> bytes_ok (frame p)")]
     level_text = ("Theorem C07_format (Coq, closed under the global context): for every payload the iterator encoder collects to frame p, "
                   "the buffer encoder returns frame p (growable) resp. frame p iff it fits / OutOfMemory otherwise (any capacity), and "
                   "the iterator returns None forever afterwards; frame is the independent wire-format specification (Spec/Frame.v). "
